@@ -107,7 +107,7 @@ func (cs *childState) do(i int, st step) {
 	case "publish":
 		a.Admin.ServeHTTP(w, rawPost("/messages/publish", "X-Hookaido-Audit-Reason: verif\nContent-Type: application/json", publishBody(st.Items)))
 	case "dequeue":
-		pull("dequeue", map[string]any{"batch": st.Batch, "lease_ttl": "30s"})
+		pull("dequeue", map[string]any{"batch": st.Batch, "lease_ttl": "20m"})
 		var db dequeueBody
 		if json.Unmarshal(w.Body.Bytes(), &db) == nil {
 			for _, it := range db.Items {
@@ -553,6 +553,22 @@ func judge(dir string, steps []step, evs []event, portBase int) string {
 	if matched == nil {
 		a.Shutdown()
 		return fmt.Sprintf("contents after restart match none of the %d admissible outcomes (e.g. %s); rows: %s", len(worlds), first, rowsText(rows))
+	}
+	// a lease that was acknowledged to a worker before the crash is still that worker's lease after the restart: right
+	// now (the leases of the history run 20 minutes) no leased message may be offered to anybody else
+	for _, rt := range [][2]string{{"/p", "pull"}, {"/f", fanTargets[0]}, {"/f", fanTargets[1]}} {
+		resp, err := a.Store.Dequeue(queue.DequeueRequest{Route: rt[0], Target: rt[1], Batch: 100, LeaseTTL: time.Second})
+		if err != nil {
+			a.Shutdown()
+			return "dequeue after restart failed: " + err.Error()
+		}
+		for _, e := range resp.Items {
+			k := rowKey(row{ID: e.ID, Route: e.Route, Target: e.Target, Payload: e.Payload}, matched)
+			if m := matched[k]; m != nil && m.State == "leased" {
+				a.Shutdown()
+				return fmt.Sprintf("message %s is leased to a worker (unexpired) but was offered again right after the restart", k)
+			}
+		}
 	}
 	// offered for delivery again: once every lease has expired each unsettled message is dequeued exactly once
 	future := time.Now().Add(2 * time.Hour)
